@@ -7,6 +7,8 @@ Require Import BS.Bytes BS.Common BS.Api BS.Layout BS.Format BS.FormatFacts BS.S
 Require Import BS.FS BS.FSFacts BS.Meta BS.MetaFacts BS.Header BS.Reader BS.ReaderFacts BS.Index BS.Data BS.DataFacts BS.Seek BS.SeekFacts BS.Series BS.SeriesFacts BS.ReadAllFacts BS.PagingFacts BS.PagingModelFacts.
 Require Import BS.World BS.Judge BS.JudgeFacts.
 Require Import BS.CacheFacts BS.JudgeCacheFacts.
+Require Import BS.Common BS.Api BS.Index BS.Data BS.Seek BS.SeekGenFacts.
+Require BSgen.SeekGen.
 Import ListNotations.
 
 (* (I refines S) the first n >= 1 lines of a range are exactly the first min(n, k) of the k lines a full read
@@ -58,3 +60,27 @@ Theorem C13_first_n_with_caches : forall fs s p hdr ihdr l cs, RepS fs s p hdr i
   \/ (select lo hi l = [] /\ read_first_n s n lo hi fs = (fs, Err ERange)).
 Proof. exact read_first_n_caches. Qed.
 Print Assumptions C13_first_n_with_caches.
+
+(* (source = model, re-checked against the current text of src/seek.rs on every run) the two functions that turn the bounds
+   of a range into the first and the last timestamp looked for, as tools/translate_seek.py translated them this time
+   (gen/SeekGen.v), are the model's - on which the theorems above rest - and compute: the smallest timestamp the start bound
+   admits raised to the first line, the largest the end bound admits lowered to the last line, the edges of u64 refused for
+   excluded bounds, an error when nothing is left *)
+Theorem C13_source_start_bound_is_model : forall d b first last, data_range d = Ok (Some (first, last)) ->
+  checked_start_time d b = BSgen.SeekGen.gen_checked_start first last b.
+Proof. exact gen_checked_start_is_model. Qed.
+Print Assumptions C13_source_start_bound_is_model.
+Theorem C13_source_end_bound_is_model : forall d b first last, data_range d = Ok (Some (first, last)) ->
+  checked_end_time d b = BSgen.SeekGen.gen_checked_end first last b.
+Proof. exact gen_checked_end_is_model. Qed.
+Print Assumptions C13_source_end_bound_is_model.
+Theorem C13_source_start_bound : forall first last b v, (first <= last)%N -> (last < U64)%N ->
+  BSgen.SeekGen.gen_checked_start first last b = Ok v ->
+  (first <= v <= last)%N /\ match b with Incl t => v = N.max t first | Excl t => v = N.max (t + 1) first | Unb => v = first end.
+Proof. exact gen_checked_start_spec. Qed.
+Print Assumptions C13_source_start_bound.
+Theorem C13_source_end_bound : forall first last b v, (first <= last)%N ->
+  BSgen.SeekGen.gen_checked_end first last b = Ok v ->
+  (first <= v <= last)%N /\ match b with Incl t => v = N.min t last | Excl t => (1 <= t)%N /\ v = N.min (t - 1) last | Unb => v = last end.
+Proof. exact gen_checked_end_spec. Qed.
+Print Assumptions C13_source_end_bound.
